@@ -20,9 +20,17 @@ def cases(tier):
     for fam in (['fosel'] if tier == 'quick' else ['fosel', 'fsel', 'f10']):
         o = dict(sublimit=2, manual=True, features=['TRANSITION_HISTORY'], callbacks=['guard', 'select'], act=['guard'], kinds=0x02)
         fx = fixture('C09', fam, o, tag='man')
-        L.append(fsm_case('C09', fx, 'replay_enter', ['P_C09', 'ENTRY=22', 'CB_BUDGET=1', 'CB_KINDS=0x02', 'KIND=1', 'CB_ONLY_LEAVES'], timeout=900 * T, witness=False, cover=True,
-                          unwind_extra=[(r'initialEnter', 3)]))
-        L[-1].mem_est = 12
+        sid = {n.name: n.sid for n in fx['T'].states}
+        if fam == 'fosel':
+            # cheap variant (quick and thorough): only L1's entry guard may redirect the initial activation, to L2
+            L.append(fsm_case('C09', fx, 'replay_enter_l1', ['P_C09', 'ENTRY=22', 'CB_BUDGET=1', 'CB_KINDS=0x02', 'KIND=1', 'CB_ONLY_STATE=%d' % sid['L1'], 'CB_ONLY_DEST=%d' % sid['L2']],
+                              timeout=900 * T, witness=False, cover=True, unwind_extra=[(r'initialEnter', 3)]))
+            L[-1].mem_est = 8
+        if tier == 'thorough':
+            # any plain state's entry guard may redirect to any plain state
+            L.append(fsm_case('C09', fx, 'replay_enter', ['P_C09', 'ENTRY=22', 'CB_BUDGET=1', 'CB_KINDS=0x02', 'KIND=1', 'CB_ONLY_LEAVES'], timeout=900 * T, witness=False, cover=True,
+                              unwind_extra=[(r'initialEnter', 3)]))
+            L[-1].mem_est = 12
         # round/request loops of initialEnter: tight; its fill loops are raised on demand (core.run_query)
     L = [c for c in L if c is not None]
     mark_cover(L, ['c09.f5.imm1_subst'])
